@@ -29,6 +29,7 @@ PROPS = {
     },
     "C13": {
         "vx": ["meta"],
+        "kl": ["meta_fixed_point"],
         "level": "proof",
     },
     "C14": {
